@@ -54,6 +54,12 @@ func TestC10(t *testing.T) {
 			out.emit(tag+"-reuse", "c10", []string{ty.Sexp(), hexBytes(d)}, c10ObsInto(ty, d, reuseGen.val(ty)))
 		}
 	}
+	// inputs of 2^32 bytes and more (see huge_test.go)
+	hugeCases(1011, true, func(tag string, ty *Ty, h *hugeInput) {
+		if !ty.IsFixed() {
+			out.emit(tag, "c10h", []string{ty.Sexp(), hexBytes(h.head), hx(h.pad), hexBytes(h.tail)}, c10hObs(ty, h))
+		}
+	})
 	full := []byte{}
 	for b := 0; b < 256; b++ {
 		full = append(full, byte(b))
